@@ -149,3 +149,139 @@ def field_encode(F):
                 bad = "bits of V = h + 19 q: " + bad
         yield name, f, bad is None, bad or ("q = carry out of h + 19 through all %d limbs; h_0 += 19 q; each limb carried into the next and masked to its width; "
                                              "byte m = bits [8m, 8m+8) of the low 255 bits of h + 19 q" % nl)
+
+
+
+def recodings(F):
+    """yield (instance, fn, ok, msg): the signed-digit recodings preserve the value: sum digit_i 2^(w i) = sum_{k<256} b_k 2^k as an identity of
+    integer-linear forms in the input bits in which every carry is an opaque quotient symbol (so the identity holds whatever the carries are)"""
+    inp = ("st", (("arr", tuple(B.input_byte(k) for k in range(32))),))
+    cases = [("Scalar::as_radix_16", r"scalar::Scalar::as_radix_16$", None, 4)] + [("Scalar::as_radix_2w(%d)" % w, r"scalar::Scalar::as_radix_2w$", w, w) for w in (5, 6, 7, 8)]
+    for name, rx, warg, w in cases:
+        f = one(F, rx)
+        if f is None:
+            continue
+        try:
+            ret, ip, root = B.run(F, f, [inp] + ([B.I(warg)] if warg else []), lin_mode=True)
+        except Exception as e:
+            yield name, f, False, "analysis failed: %r" % (e,)
+            continue
+        if ret is None or ret[0] != "arr":
+            yield name, f, False, "the digit array left the domain"
+            continue
+        total = B.lin({}, 0)
+        bad = None
+        for i, dgt in enumerate(ret[1]):
+            l = B.to_lin(dgt) if dgt[0] in ("lin", "bv", "i") else None
+            if l is None:
+                bad = "digit %d is outside the linear domain" % i
+                break
+            total = B.lin_add(total, B.lin_scale(l, 1 << (w * i)))
+        if bad is None:
+            want = {("b", k): 1 << k for k in range(256)}
+            got = dict(total[1])
+            if total[2] != 0 or got != want:
+                diff = sorted(set(got) | set(want), key=repr)
+                k = [x for x in diff if got.get(x) != want.get(x)][0]
+                bad = "sum digit_i 2^(%d i) differs from the scalar: the coefficient of %s is %s, expected %s%s" % (
+                    w, ("input bit %d" % k[1]) if k[0] == "b" else "a carry", got.get(k, 0), want.get(k, 0), "" if total[2] == 0 else "; constant %d" % total[2])
+        yield name, f, bad is None, bad or "sum_i digit_i 2^(%d i) = sum_{k<256} b_k 2^k identically in the input bits and in every carry (%d opaque carries cancel)" % (w, ip.quotients)
+
+
+def naf_invariant(F, widths=(5, 6, 7, 8)):
+    """yield (instance, fn, ok, msg): non_adjacent_form keeps  s = sum_{i<pos} naf_i 2^i + 2^pos (carry + sum_{k>=pos} b_k 2^(k-pos))  across one
+    iteration of its loop, for every position pos in 0..255, every carry and every value of the current bit, in both digit arms - checked as an
+    identity of integer-linear forms over the remaining input bits (one loop iteration is interpreted from a state built at the loop header)."""
+    from absint import State
+    from mirlib import view
+    f = one(F, r"scalar::Scalar::non_adjacent_form$")
+    if f is None:
+        return
+    fv = view(F, f)
+    names = {fv.locals[l].get("name"): l for l in range(len(fv.locals)) if fv.locals[l].get("name")}
+    need = ("pos", "carry", "naf", "x_u64")
+    if any(n not in names for n in need):
+        yield "Scalar::non_adjacent_form", f, False, "expected locals %s, found %s" % (need, sorted(n for n in names if n))
+        return
+    for w in widths:
+        inst = "Scalar::non_adjacent_form(%d)" % w
+        try:
+            ip = B.BvInterp(F, B.BvModels(), step_budget=6_000_000)
+            ip.lin_mode = True
+            loops = ip.loops(fv)
+            if len(loops) != 1:
+                yield inst, f, False, "expected one loop, found %d" % len(loops)
+                continue
+            header = list(loops)[0]
+            st = State([{}])
+            st.frames[0][0] = ("st", (("arr", tuple(B.input_byte(k) for k in range(32))),))
+            st.frames.append({1: ("ref", 0, 0, ()), 2: B.I(w)})
+            ip.fn_stack = [f]
+            ip.run_region(fv, st, 1, 0, header, {})
+            fr = st.frames[1]
+            xs = fr.get(names["x_u64"])
+            if xs is None or xs[0] != "arr" or any(x[0] not in ("bv", "i") for x in xs[1]):
+                yield inst, f, False, "the word buffer is outside the bit-provenance domain at the loop header"
+                continue
+            bad, cases = None, 0
+            for p in range(256):
+                for c in (0, 1):
+                    for bp in (0, 1):
+                        for arm in ((None,) if (c + bp) % 2 == 0 else (1, 0)):
+                            s2 = st.copy()
+                            fr2 = s2.frames[1]
+                            fr2[names["pos"]] = B.I(p)
+                            fr2[names["carry"]] = B.I(c)
+                            words = [list(B.as_bv(x, 64)[1]) for x in xs[1]]
+                            words[p // 64][p % 64] = bp
+                            fr2[names["x_u64"]] = ("arr", tuple(B.bv(wd) for wd in words))
+                            fr2[names["naf"]] = ("arr", tuple(B.I(0) for _ in range(256)))
+                            ip.force_lt = arm
+                            # on a digit arm the window is odd and below / not below half the width: its range decides how `as i8` reinterprets it
+                            ip.hint = None if arm is None else ((1, (1 << (w - 1)) - 1) if arm else ((1 << (w - 1)) + 1, (1 << w) - 1))
+                            ip.hint_i8 = None
+                            ip.run_region(fv, s2, 1, header, header, {}, skip_first_stop=True)
+                            cases += 1
+                            fr3 = s2.frames[1]
+                            if fr3.get("__dead"):
+                                bad = "pos=%d carry=%d bit=%d: the iteration does not return to the loop header" % (p, c, bp)
+                                break
+                            p2, c2, naf = fr3.get(names["pos"]), fr3.get(names["carry"]), fr3.get(names["naf"])
+                            if p2 is None or p2[0] != "i" or p2[1] != p2[2] or c2 is None or c2[0] != "i" or c2[1] != c2[2] or naf is None or naf[0] != "arr":
+                                bad = "pos=%d carry=%d bit=%d: pos / carry are not concrete after the iteration" % (p, c, bp)
+                                break
+                            p2, c2 = p2[1], c2[1]
+
+                            def tail(lo, fixed=None):
+                                d = {}
+                                for k in range(lo, 256):
+                                    if fixed is not None and k == fixed[0]:
+                                        continue
+                                    d[("b", k)] = 1 << k
+                                return B.lin(d, (fixed[1] << fixed[0]) if fixed is not None and fixed[0] >= lo else 0)
+                            before = B.lin_add(tail(p, (p, bp)), B.lin({}, c << p))
+                            after = B.lin_add(tail(p2, (p, bp)), B.lin({}, c2 << p2))
+                            written = [i for i, x in enumerate(naf[1]) if not (x[0] == "i" and x[1] == x[2] == 0)]
+                            if any(i != p for i in written):
+                                bad = "pos=%d: the iteration writes digit %s" % (p, written)
+                                break
+                            if written:
+                                dg = B.to_lin(naf[1][p]) if naf[1][p][0] in ("lin", "bv", "i") else None
+                                if dg is None:
+                                    bad = "pos=%d carry=%d bit=%d: the digit written is outside the linear domain" % (p, c, bp)
+                                    break
+                                after = B.lin_add(after, B.lin_scale(dg, 1 << p))
+                            if before != after:
+                                bad = "pos=%d carry=%d bit=%d%s: the value is not preserved (pos' = %d, carry' = %d%s)" % (
+                                    p, c, bp, "" if arm is None else (", digit arm %s" % ("window < width/2" if arm else "window >= width/2")), p2, c2, ", digit written" if written else "")
+                                break
+                        if bad:
+                            break
+                    if bad:
+                        break
+                if bad:
+                    break
+            yield inst, f, bad is None, bad or ("one loop iteration preserves s = sum_{i<pos} naf_i 2^i + 2^pos (carry + remaining bits) for every pos in 0..255, carry, "
+                                               "current bit and digit arm (%d cases, linear identities over the remaining input bits)" % cases)
+        except Exception as e:
+            yield inst, f, False, "analysis failed: %r" % (e,)
